@@ -19,6 +19,12 @@ Definition model_call_id c k defined i := call_id (rc_sentinel c) (reg_of c k) (
 Definition model_count c k defined := get_count (rc_sentinel c) (model_names_arr c k defined).
 Definition model_get_name c k defined i := get_name (rc_sentinel c) (model_names_arr c k defined) i.
 Definition model_dispatch c defined n := dispatch c (cfg_of defined) n.
+Definition model_chain c k defined elems := chain_calls (rc_sentinel c) (reg_of c k) (cfg_of defined) elems.
+(** the property for a chain walk: exactly the own implementations of the enabled elements, in order *)
+Definition chain_expected c k defined elems := map (impl_of k) (filter (enabled (reg_of c k) (cfg_of defined)) elems).
+Fixpoint strs_eqb (a b : list string) : bool :=
+  match a, b with [], [] => true | x :: a', y :: b' => String.eqb x y && strs_eqb a' b' | _, _ => false end.
+Definition spec_chain_ok c k defined elems (observed : list string) : bool := strs_eqb observed (chain_expected c k defined elems).
 Definition model_fixed c k := fixed_names (reg_of c k).
 Definition model_all_names c k := map snd (body (reg_of c k)).
 
